@@ -132,16 +132,21 @@ def keys_part(rep):
                 rep.counts["candidates"] += 1
                 # replay on the real function
                 key = detail
-                with warnings.catch_warnings(record=True) as w:
-                    warnings.simplefilter("always")
-                    try:
-                        if fn is check_surface_dict_keys:
-                            fn({key: 1})
-                        else:
-                            fn({"num_y": 5, "num_x": 2, "wing_type": "rect", "symmetry": True, key: 1.0})
-                    except Exception:
-                        pass
-                nrw = sum(1 for x in w if issubclass(x.category, RuntimeWarning))
+                # (the call is made twice: a set-up that is repeated, or made by a second independent Problem of the same
+                #  process, must warn again; the smaller count is what is judged)
+                counts = []
+                for rep_i in range(2):
+                    with warnings.catch_warnings(record=True) as w:
+                        warnings.simplefilter("always")
+                        try:
+                            if fn is check_surface_dict_keys:
+                                fn({key: 1})
+                            else:
+                                fn({"num_y": 5, "num_x": 2, "wing_type": "rect", "symmetry": True, key: 1.0})
+                        except Exception:
+                            pass
+                    counts.append(sum(1 for x in w if issubclass(x.category, RuntimeWarning)))
+                nrw = min(counts) if key not in doc else max(counts)
                 isdoc = key in doc
                 bad = (nrw == 0 and not isdoc) or (nrw > 0 and isdoc) or "category" in oid
                 if bad:
